@@ -1,4 +1,5 @@
-"""Rename fuzz: every local variable of one function renamed and the whole module re-emitted through ast.unparse (reformatted, comments\nstripped); all 15 checks must stay silent.  Scratch copies live in a temp dir and are removed at once."""
+"""Refactor fuzz (modes: rename, flip comparisons, commute operands, swap if/else, return through a temporary).
+Rename fuzz: every local variable of one function renamed and the whole module re-emitted through ast.unparse (reformatted, comments\nstripped); all 15 checks must stay silent.  Scratch copies live in a temp dir and are removed at once."""
 import ast, os, sys, shutil, tempfile, subprocess, json, builtins
 sys.path.insert(0,'/verif/sa')
 TARGETS=[('magpylib/_src/fields/field_BH_triangularmesh.py','mask_inside_enclosing_box'),('magpylib/_src/fields/field_BH_triangularmesh.py','lines_end_in_trimesh'),('magpylib/_src/fields/field_BH_cylinder_segment.py','BHJM_cylinder_segment'),('magpylib/_src/fields/field_BH_triangle.py','triangle_Bfield'),('magpylib/_src/obj_classes/class_BaseExcitations.py','magnetization'),('magpylib/_src/fields/special_el3.py','el3v'),('magpylib/_src/fields/field_BH_polyline.py','current_vertices_field'),('magpylib/_src/obj_classes/class_BaseGeo.py','position'),('magpylib/_src/obj_classes/class_BaseGeo.py','orientation'),('magpylib/_src/fields/field_wrap_BH.py','getBH_level2'),('magpylib/_src/fields/field_wrap_BH.py','get_src_dict'),('magpylib/_src/fields/field_wrap_BH.py','getBH_level1'),('magpylib/_src/fields/field_wrap_BH.py','getBH_dict_level2'),
@@ -14,6 +15,49 @@ TARGETS=[('magpylib/_src/fields/field_BH_triangularmesh.py','mask_inside_enclosi
  ('magpylib/_src/obj_classes/class_BaseTransform.py','rotate_from_euler'),('magpylib/_src/input_checks.py','check_format_input_orientation'),('magpylib/_src/obj_classes/class_Collection.py','children'),
  ('magpylib/_src/input_checks.py','make_float_array'),('magpylib/_src/fields/field_BH_tetrahedron.py','BHJM_magnet_tetrahedron'),('magpylib/_src/obj_classes/class_BaseTransform.py','_rotate'),
  ('magpylib/_src/utility.py','format_src_inputs'),('magpylib/_src/input_checks.py','check_format_input_obj')]
+FLIP={ast.Lt:ast.Gt,ast.Gt:ast.Lt,ast.LtE:ast.GtE,ast.GtE:ast.LtE,ast.Eq:ast.Eq,ast.NotEq:ast.NotEq}
+class Flip(ast.NodeTransformer):
+    """a < b  ->  b > a (every single-operator ordering / equality comparison)"""
+    def visit_Compare(self,n):
+        self.generic_visit(n)
+        if len(n.ops)==1 and type(n.ops[0]) in FLIP and not (isinstance(n.comparators[0],ast.Constant) and n.comparators[0].value is None):
+            n.left,n.comparators,n.ops=n.comparators[0],[n.left],[FLIP[type(n.ops[0])]()]
+        return n
+class Commute(ast.NodeTransformer):
+    """a * b -> b * a, m1 & m2 -> m2 & m1 (numeric / mask operands only)"""
+    def visit_BinOp(self,n):
+        self.generic_visit(n)
+        numeric=any(isinstance(x,ast.Constant) and isinstance(x.value,(int,float)) for x in (n.left,n.right))   # rotations do not commute
+        if (isinstance(n.op,(ast.BitAnd,ast.BitOr)) or (isinstance(n.op,ast.Mult) and numeric)) and not any(isinstance(x,(ast.List,ast.Tuple,ast.JoinedStr)) or (isinstance(x,ast.Constant) and isinstance(x.value,str)) for x in (n.left,n.right)):
+            n.left,n.right=n.right,n.left
+        return n
+class IfSwap(ast.NodeTransformer):
+    """if c: A else: B  ->  if not c: B else: A   (plain else branches only)"""
+    def visit_If(self,n):
+        self.generic_visit(n)
+        if n.orelse and not (len(n.orelse)==1 and isinstance(n.orelse[0],ast.If)):
+            n.test=ast.UnaryOp(op=ast.Not(),operand=n.test); n.body,n.orelse=n.orelse,n.body
+        return n
+class TmpRet(ast.NodeTransformer):
+    """return <expr>  ->  _rv = <expr>; return _rv"""
+    def visit_FunctionDef(self,f):
+        self.generic_visit(f); return f
+    def _blk(self,stmts):
+        out=[]
+        for s in stmts:
+            if isinstance(s,ast.Return) and s.value is not None and not isinstance(s.value,(ast.Name,ast.Constant)):
+                out.append(ast.Assign(targets=[ast.Name(id='_rv',ctx=ast.Store())],value=s.value)); out.append(ast.Return(value=ast.Name(id='_rv',ctx=ast.Load())))
+            else: out.append(s)
+        return out
+    def generic_visit(self,node):
+        super().generic_visit(node)
+        for f in ('body','orelse','finalbody'):
+            if isinstance(getattr(node,f,None),list) and getattr(node,f) and isinstance(getattr(node,f)[0],ast.stmt):
+                setattr(node,f,self._blk(getattr(node,f)))
+        for h in getattr(node,'handlers',[]) or []:
+            h.body=self._blk(h.body)
+        return node
+MODE='rename'
 class Ren(ast.NodeTransformer):
     def __init__(self,names): self.names=names
     def visit_Name(self,n):
@@ -31,11 +75,17 @@ def variant(path,fname):
             glob={x for s in ast.walk(node) if isinstance(s,(ast.Global,ast.Nonlocal)) for x in s.names}
             imported={a.asname or a.name for s in ast.walk(node) if isinstance(s,(ast.Import,ast.ImportFrom)) for a in s.names}
             names=stores-params-glob-imported-set(dir(builtins))
-            Ren(names).visit(node); done=True
+            if MODE=='rename': Ren(names).visit(node)
+            elif MODE=='flip': Flip().visit(node)
+            elif MODE=='commute': Commute().visit(node)
+            elif MODE=='ifswap': IfSwap().visit(node)
+            elif MODE=='tmpret': TmpRet().visit(node)
+            ast.fix_missing_locations(node); done=True
     return ast.unparse(tree)
 import concurrent.futures as cf
 def one(t):
-    path,fname=t
+    global MODE
+    path,fname,MODE=t
     root=tempfile.mkdtemp(prefix='twinfuzz_')
     shutil.copytree('/repo/magpylib',root+'/magpylib',ignore=shutil.ignore_patterns('__pycache__'))
     open(root+'/'+path,'w').write(variant(path,fname))
@@ -43,15 +93,17 @@ def one(t):
     for p in "C02 C03 C04 C05 C06 C07 C08 C09 C10 C11 C12 C17 C18 C19 C20".split():
         r=subprocess.run(['/venv/bin/python','-B','/verif/sa/check.py',p,'--repo',root],capture_output=True,text=True,env={**os.environ,'VERIF_EVIDENCE_DIR':'/tmp/verif_renamefuzz_ev'})
         if r.returncode!=0:
-            lines=[l for l in r.stdout.splitlines() if 'finding:' in l or 'ANALYSIS-ERROR' in l]
+            lines=[l.strip()[:150] for l in r.stdout.splitlines() if 'finding:' in l or 'ANALYSIS-ERROR' in l]
             out.append((p,r.returncode,lines[:3]))
     shutil.rmtree(root)
     return fname, out
 
 if __name__ == "__main__":
     os.makedirs('/tmp/verif_renamefuzz_ev', exist_ok=True)
-    bad=0
-    with cf.ProcessPoolExecutor(max_workers=8) as ex:
-        for fname,out in ex.map(one, TARGETS):
-            print(fname, 'OK' if not out else out, flush=True); bad+=bool(out)
-    print(f"rename fuzz: {len(TARGETS)} functions, {bad} with a non-silent check")
+    modes=sys.argv[1:] or ['rename','flip','commute','ifswap','tmpret']
+    for mode in modes:
+        bad=0
+        with cf.ProcessPoolExecutor(max_workers=12) as ex:
+            for fname,out in ex.map(one, [(p,f,mode) for p,f in TARGETS]):
+                if out: print(mode, fname, out, flush=True); bad+=1
+        print(f"refactor fuzz [{mode}]: {len(TARGETS)} functions, {bad} with a non-silent check", flush=True)
